@@ -913,6 +913,11 @@ func Vacuum(ctx context.Context, tableName string, beforeTime time.Time) error {
 		return fmt.Errorf("table not found: %s", tableName)
 	}
 
+	if table.txStart != nil {
+		// vacuum commits; inside a transaction that would publish the
+		// transaction's writes early and make ROLLBACK ineffective
+		return errors.New("cannot vacuum inside a transaction")
+	}
 	db, err := table.Tree.Root.Clone(ctx)
 	if err != nil {
 		return fmt.Errorf("clone: %w", err)
